@@ -755,3 +755,210 @@ pub fn gen_finals_doc(p: &mut Prng) -> (GDoc, Vec<String>) {
         order,
     )
 }
+
+
+// ---------------------------------------------------------------------------------------------
+// Structural generator: small documents, hardly any content, but dense in the structural corner
+// cases of the interpretation algorithm: many transitions per state with arbitrary (legal) target
+// sets — descendants, ancestors, self, siblings, history pseudo-states, several targets in
+// different regions of a parallel —, internal and external, initial attributes / <initial>
+// elements that name deep descendants, several states or history states, shallow and deep history
+// in compound and parallel parents.
+
+fn st(id: String, kind: Kind) -> GState {
+    GState { id, kind, kids: vec![], hist: vec![], trans: vec![], onentry: vec![], onexit: vec![], init: Init::Default, data: vec![], donedata: None }
+}
+
+fn gen_tree(p: &mut Prng, depth: usize, budget: &mut i32, next: &mut usize, force: Option<Kind>) -> GState {
+    *next += 1;
+    *budget -= 1;
+    let id = format!("s{}", *next);
+    let kind = force.unwrap_or_else(|| match p.below(10) {
+        0 | 1 | 2 if depth < 3 && *budget > 2 => Kind::Parallel,
+        3 if depth > 0 => Kind::Final,
+        _ => Kind::State,
+    });
+    let mut s = st(id, kind);
+    match kind {
+        Kind::Final => {}
+        Kind::Parallel => {
+            let n = p.range(2, 3);
+            for _ in 0..n {
+                let fk = if p.chance(1, 4) && *budget > 2 && depth < 2 { Kind::Parallel } else { Kind::State };
+                s.kids.push(gen_tree(p, depth + 1, budget, next, Some(fk)));
+            }
+        }
+        Kind::State => {
+            if depth < 3 && *budget > 0 && p.chance(3, 5) {
+                let n = p.range(1, 3);
+                for i in 0..n {
+                    if *budget <= 0 && i > 0 {
+                        break;
+                    }
+                    let fk = if i == 0 { Some(if p.chance(1, 4) && *budget > 2 { Kind::Parallel } else { Kind::State }) } else { None };
+                    s.kids.push(gen_tree(p, depth + 1, budget, next, fk));
+                }
+            }
+        }
+    }
+    if !s.kids.is_empty() && p.chance(1, 2) {
+        *next += 1;
+        s.hist.push(GHist { id: format!("h{}", *next), deep: p.chance(1, 2), targets: vec![], content: vec![] });
+    }
+    s
+}
+
+fn is_anc_or_self(infos: &[Info], a: usize, mut x: usize) -> bool {
+    loop {
+        if x == a {
+            return true;
+        }
+        match infos[x].parent {
+            Some(p) => x = p,
+            None => return false,
+        }
+    }
+}
+
+fn lca(infos: &[Info], a: usize, b: usize) -> usize {
+    let mut x = a;
+    loop {
+        if is_anc_or_self(infos, x, b) {
+            return x;
+        }
+        x = infos[x].parent.unwrap_or(0);
+    }
+}
+
+/// may `a` and `b` be named together in one target list?  Only ordinary states that lie in
+/// different regions of a parallel state (history pseudo-states are only used as single targets,
+/// which is always a legal state specification).
+fn compatible(infos: &[Info], a: usize, b: usize) -> bool {
+    if infos[a].is_hist || infos[b].is_hist {
+        return false;
+    }
+    if is_anc_or_self(infos, a, b) || is_anc_or_self(infos, b, a) {
+        return false;
+    }
+    let l = lca(infos, a, b);
+    l != 0 && infos[l].kind == Kind::Parallel
+}
+
+fn pick_targets(p: &mut Prng, infos: &[Info], pool: &[usize], max: usize) -> Vec<String> {
+    if pool.is_empty() {
+        return vec![];
+    }
+    let mut chosen: Vec<usize> = vec![*p.pick(pool)];
+    let want = if p.chance(1, 3) { max } else { 1 };
+    let mut tries = 0;
+    while chosen.len() < want && tries < 12 {
+        tries += 1;
+        let c = *p.pick(pool);
+        if !chosen.contains(&c) && chosen.iter().all(|x| compatible(infos, *x, c)) {
+            chosen.push(c);
+        }
+    }
+    chosen.iter().map(|i| infos[*i].id.clone()).collect()
+}
+
+fn fill_structural(s: &mut GState, p: &mut Prng, infos: &[Info], events: &[&str]) {
+    let me = infos.iter().position(|i| i.id == s.id).unwrap();
+    let all: Vec<usize> = (1..infos.len()).collect();
+    let mut below: Vec<usize> = vec![];
+    descendants(infos, me, &mut below);
+    let below_with_hist: Vec<usize> = (1..infos.len()).filter(|i| *i != me && is_anc_or_self(infos, me, *i)).collect();
+    for h in s.hist.iter_mut() {
+        let pool: Vec<usize> = if h.deep { below.clone() } else { infos[me].kids.clone() };
+        let pool: Vec<usize> = pool.into_iter().filter(|i| !infos[*i].is_hist).collect();
+        h.targets = pick_targets(p, infos, &pool, 2);
+        if p.chance(1, 3) {
+            h.content = vec![GItem::Log("1".to_string())];
+        }
+    }
+    if s.kind != Kind::Final {
+        let nt = p.range(1, 4);
+        for _ in 0..nt {
+            let mut t = GTrans::default();
+            t.events.push((*p.pick(events)).to_string());
+            if p.chance(1, 6) {
+                t.events.push((*p.pick(events)).to_string());
+            }
+            if p.chance(1, 4) {
+                let i = *p.pick(&all);
+                t.cond = Some(format!("In('{}')", infos[i].id));
+            }
+            let pool: &Vec<usize> = match p.below(4) {
+                0 => &below_with_hist,
+                _ => &all,
+            };
+            if !p.chance(1, 8) {
+                t.targets = pick_targets(p, infos, if pool.is_empty() { &all } else { pool }, 3);
+            }
+            t.internal = p.chance(2, 5);
+            if p.chance(1, 4) {
+                t.content = vec![GItem::Log("2".to_string())];
+            }
+            s.trans.push(t);
+        }
+        if p.chance(1, 4) {
+            s.onentry.push(vec![GItem::Log("3".to_string())]);
+        }
+        if p.chance(1, 4) {
+            s.onexit.push(vec![GItem::Log("4".to_string())]);
+        }
+    }
+    if s.kind == Kind::State && !s.kids.is_empty() {
+        // initial: default, a child, a deeper descendant, a history child, or several states
+        let pool: Vec<usize> = match p.below(4) {
+            0 => below_with_hist.clone(),
+            1 => below.clone(),
+            _ => infos[me].kids.clone(),
+        };
+        let tg = pick_targets(p, infos, &pool, 2);
+        s.init = match p.below(5) {
+            0 | 1 => Init::Default,
+            2 | 3 => Init::Attr(tg),
+            _ => Init::Elem(tg, if p.chance(1, 2) { vec![GItem::Log("5".to_string())] } else { vec![] }),
+        };
+    }
+    for k in s.kids.iter_mut() {
+        fill_structural(k, p, infos, events);
+    }
+}
+
+pub fn gen_structural(p: &mut Prng) -> (GDoc, Vec<String>) {
+    let mut next = 0usize;
+    let mut budget = p.range(3, 9) as i32;
+    let n = p.range(1, 2);
+    let mut kids = vec![];
+    for i in 0..n {
+        let fk = if i == 0 { Some(if p.chance(1, 3) { Kind::Parallel } else { Kind::State }) } else { None };
+        kids.push(gen_tree(p, 0, &mut budget, &mut next, fk));
+    }
+    let mut infos = vec![Info { id: "#root".to_string(), kind: Kind::State, parent: None, kids: vec![], is_hist: false }];
+    for kdx in 0..kids.len() {
+        let ki = collect(&kids[kdx], Some(0), &mut infos);
+        infos[0].kids.push(ki);
+    }
+    let events = ["a", "b", "c"];
+    for kdx in 0..kids.len() {
+        let mut s = kids[kdx].clone();
+        fill_structural(&mut s, p, &infos, &events);
+        kids[kdx] = s;
+    }
+    let root_init = if p.chance(1, 2) {
+        let mut pool: Vec<usize> = (1..infos.len()).collect();
+        if p.chance(1, 2) {
+            pool = infos[0].kids.clone();
+        }
+        let tg = pick_targets(p, &infos, &pool, 2);
+        // the first top-level state must not be skipped into a top-level final right away too often
+        Init::Attr(tg)
+    } else {
+        Init::Default
+    };
+    let ne = p.range(3, 9);
+    let evs = (0..ne).map(|_| (*p.pick(&events)).to_string()).collect();
+    let data = VARS.iter().map(|v| (v.to_string(), "0".to_string())).collect();
+    (GDoc { late: false, root_init, kids, data, script: None, datamodel: "vdm".to_string() }, evs)
+}
